@@ -302,8 +302,14 @@ DISTURB = [
     "KEEP assert snapshot({'k': f\"{'a'}\"})['k'] >= 'b'",
     "KEEP assert [1, 5] == snapshot([Is(1), Is(2)])",
     "KEEP s_ = snapshot([f\"{'a'}\", Is(0+1)])",
+    # displays with star-expressions, never compared: nothing in them corresponds to a single value
+    "KEEP s_ = snapshot([0+1, *XS_])",
+    "KEEP s_ = snapshot({'a': 0+1, **DS_})",
+    "KEEP s_ = snapshot((0+1, *XS_))",
 ]
 DISTURB_DEF = """
+XS_ = [2, 3]
+DS_ = {'b': 2}
 class Item_:
     x = 1
     def __eq__(self, other):
